@@ -193,6 +193,18 @@ pub fn run(tier: &str) -> i32 {
                 Ok(_) => {}
                 Err(e) => forms.push(("run-time-typed", typed.clone(), Err(e))),
             }
+            // one operand a constant for the folder, the other a run-time value of static type any / a union
+            for (form, text, arg) in [
+                ("run-time-any-vs-literal", format!("f := (a: any) -> any {{ m := match a {{ ({}) => 1, => 0, }}; return (a == {}, a != {}, m) }}", ps[j], ps[j], ps[j]), a.clone()),
+                ("literal-vs-run-time-any", format!("f := (b: any) -> any {{ m := match {} {{ (b) => 1, => 0, }}; return ({} == b, {} != b, m) }}", ps[i], ps[i], ps[i]), b.clone()),
+                ("run-time-union-vs-bound-constant", format!("f := (a: {}|()) -> any {{ k := {}; m := match a {{ (k) => 1, => 0, }}; return (a == k, a != k, m) }}", Ty::from_impl(&a.as_type()).print(), ps[j]), a.clone()),
+            ] {
+                match eval(interp, &text) {
+                    Ok(Variable::Function(f)) => forms.push((form, text.clone(), call(&f, vec![arg]))),
+                    Ok(_) => {}
+                    Err(e) => forms.push((form, text.clone(), Err(e))),
+                }
+            }
             // both operands spelled with the same name: still compared by content (a value
             // holding a NaN differs from itself whatever its static type says)
             if i == j {
